@@ -375,7 +375,7 @@ fn db_text_valid(r: &mut Rng, defect: u64) -> String {
             match r.below(6) {
                 0 => { lines.remove(k); continue; }
                 1 => { let x = lines[k].clone(); lines.insert(k, x); }
-                2 => { lines[k] = mutate(r, &lines[k].clone()); }
+                2 => { if lines[k].starts_with("sig") && r.chance(1, 2) { let t = *r.pick(SIG_TAILS); lines[k].push_str(t); } else { lines[k] = mutate(r, &lines[k].clone()); } }
                 3 => { lines.insert(k, r.pick(&["junk", "foo = bar", "[foo]", "[tcp]", "sig = 1", "label = x", "sig = *:64:0:*:*,*:::0", "1:Host::"]).to_string()); }
                 4 => { let x = lines.remove(k); let k2 = r.below(lines.len() as u64 + 1) as usize; lines.insert(k2, x); }
                 _ => { lines.swap(k, 0); }
@@ -388,6 +388,33 @@ fn db_text_valid(r: &mut Rng, defect: u64) -> String {
     let mut t = lines.join(nl);
     if r.chance(3, 4) { t.push_str(nl); }
     t
+}
+
+/// a signature line that starts with a valid signature and goes on (comment, extra field, second signature,
+/// stray separator): every section kind with equal weight; the sibling case without the tail loads fine
+const SIG_TAILS: &[&str] = &[" ; linux 3.x", ":0", ":0:0", "0", "+", "*", "x", ",", ":", "::0+", " 1", ",df", ":df", "-", "?", "]", "=[x]", " x"];
+fn sig_tail_cases(r: &mut Rng, per_section: usize, out: &mut Vec<String>) {
+    let secs = [(Sec::Tq, "[tcp:request]"), (Sec::Ts, "[tcp:response]"), (Sec::Hq, "[http:request]"), (Sec::Hs, "[http:response]"), (Sec::Mtu, "[mtu]")];
+    for (sec, header) in secs {
+        for k in 0..per_section {
+            let good = match sec {
+                Sec::Mtu => u16v(r).to_string(),
+                Sec::Hq | Sec::Hs => { let mut g = gen_http(r, true); g.expsw = String::new(); g.to_string() }
+                _ => gen_tcp(r).to_string(),
+            };
+            let tail = if k % 4 == 3 {
+                // two signatures run together
+                match sec { Sec::Mtu => u16v(r).to_string(), Sec::Hq | Sec::Hs => gen_http(r, true).to_string(), _ => gen_tcp(r).to_string() }
+            } else { SIG_TAILS[(k / 2) % SIG_TAILS.len()].to_string() };
+            let label = if sec == Sec::Mtu { "DSL".to_string() } else { good_label(r) };
+            // before / after other valid entries, so that a truncated load is visible in the dump
+            let other = match sec { Sec::Mtu => "sig = 1500".to_string(), Sec::Hq | Sec::Hs => "sig = 1:Host::".to_string(), _ => "sig = *:64:0:*:*,*:::0".to_string() };
+            let bad = format!("sig = {}{}", good, tail);
+            let body = if k % 2 == 0 { format!("{}\n{}", bad, other) } else { format!("{}\n{}", other, bad) };
+            out.push(case("D", &format!("{}\nlabel = {}\n{}\n", header, label, body)));
+            if k % 8 == 0 { out.push(case("D", &format!("{}\nlabel = {}\nsig = {}\n{}\n", header, label, good, other))); }
+        }
+    }
 }
 
 fn bundled_cases(out: &mut Vec<String>, r: &mut Rng, tier: &Tier) {
@@ -486,6 +513,7 @@ fn gen(r: &mut Rng, tier: &Tier, out: &mut Vec<String>) {
     for _ in 0..tier.scale(500, 40000) { let t = db_text_valid(r, 25); out.push(case("D", &t)); }
     for _ in 0..tier.scale(300, 25000) { let t = db_text(r, true); out.push(case("D", &t)); }
     for _ in 0..tier.scale(300, 25000) { let t = db_text(r, false); out.push(case("D", &t)); }
+    sig_tail_cases(r, tier.scale(48, 2000), out);
     for t in ["", "\n", "\r\n", ";", "classes = a", "[mtu]", "[mtu]\nlabel = x", "[mtu]\nsig = 1", "sig = 1", "label = s:!:a:",
               "[tcp:request]\nsig = *:64:0:*:*,*:::0", "[tcp:request]\nlabel = s:!:a:\n[tcp:response]\nsig = *:64:0:*:*,*:::0",
               "[tcp:request]\nlabel = s:!:a:\n[mtu]\n[tcp:request]\nsig = *:64:0:*:*,*:::0",
